@@ -16,6 +16,7 @@ import tempfile
 from adapters import (HTML, HTMLDependency, Meta, MetadataNode, Ranks, ReprObj, Tag, TagList, TObj1, TObj1R, TObjL,
                       TObjLR, canon, canon_list, realize, realize_list, versions_in)
 from htmltools import HTMLDocument
+from htmltools._core import TagAttrDict
 from ops import op
 from packaging.version import Version
 from wire import (Toks, eattrs, eb, elist, enode, enodes, eopt, err_of, es, p_attrpair, p_bool, p_list, p_node, p_opt,
@@ -63,7 +64,9 @@ def snap_plain(v):
 def snap(x):
     """structural value of everything reachable from x; no addresses, nothing order-insensitive"""
     if isinstance(x, Tag):
-        extra = tuple(sorted(k for k in x.__dict__ if k not in ("name", "add_ws", "attrs", "children", "prev_displayhook")))
+        extra = tuple(sorted((k, snap(v) if isinstance(v, (TagList, Tag)) else tuple((a, type(b).__name__, str(b)) for a, b in v.items())
+                              if isinstance(v, TagAttrDict) else None)
+                             for k, v in x.__dict__.items() if k not in ("name", "add_ws", "attrs", "children", "prev_displayhook")))
         return ("Tag", type(x).__name__, x.name, x.add_ws, type(x.attrs).__name__,
                 tuple((k, type(v).__name__, str(v)) for k, v in x.attrs.items()), snap(x.children),
                 x.prev_displayhook is None, extra)
@@ -106,6 +109,15 @@ def objects(x, out=None, top_list=False):
             out.append((K_LIST, n.children, path + ".children"))
             for i, c in enumerate(n.children):
                 walk(c, f"{path}.children[{i}]")
+            # further instance fields (a Tag subclass, or a caller's own attribute): Tag.__copy__ shallow-copies every
+            # instance field, so an attribute map / child list held directly in one belongs to one tag only
+            for k, v in n.__dict__.items():
+                if k in ("name", "add_ws", "attrs", "children", "prev_displayhook"):
+                    continue
+                if isinstance(v, TagAttrDict):
+                    out.append((K_ATTRS, v, f"{path}.{k}"))
+                elif isinstance(v, TagList) and not isinstance(v, Tag):
+                    out.append((K_LIST, v, f"{path}.{k}"))
         elif isinstance(n, HTMLDependency):
             out.append((K_DEP, n, path))
             if n.source is not None:
